@@ -102,6 +102,9 @@ fn op_byte(name: &str) -> Vec<u8> {
         "HASH160" => b(op::OP_HASH160),
         "RETURN" => b(op::OP_RETURN),
         "PUSHDATA1_TRUNC" => vec![0x4c, 0x05, 0x01],
+        "NEG" => vec![0x01, 0x82],          // the number -2 (-1 would have to be OP_1NEGATE)
+        "NONMIN" => vec![0x02, 0x11, 0x00], // 17 with a padding byte
+        "PUSH5" => vec![0x01, 0x05],        // a push that should have been OP_5
         _ => vec![0xff],
     }
 }
@@ -231,6 +234,32 @@ pub fn run_case(u: &Universe, case: &Value) -> Vec<Value> {
             }
             ev["toks"] = case["toks"].clone();
             let script = ScriptBuf::from_bytes(bytes);
+            // the lexer's own answer (L2 conformance with Lexer.tla): token names, or the error kind
+            ev["lex"] = match catch_unwind(AssertUnwindSafe(|| miniscript::miniscript::lex::lex(&script))) {
+                Ok(Ok(toks)) => json!({"st": "ok", "toks": toks.iter().map(|t| {
+                    use miniscript::miniscript::lex::Token as T;
+                    match t {
+                        T::Num(n) => format!("Num({})", n),
+                        T::Hash20(_) => "Hash20".to_string(),
+                        T::Bytes32(_) => "Bytes32".to_string(),
+                        T::Bytes33(_) => "Bytes33".to_string(),
+                        T::Bytes65(_) => "Bytes65".to_string(),
+                        x => format!("{:?}", x),
+                    }
+                }).collect::<Vec<_>>(), "err": ""}),
+                Ok(Err(e)) => {
+                    use miniscript::miniscript::lex::Error as E;
+                    let kind = match e {
+                        E::InvalidInt { .. } => "InvalidInt",
+                        E::InvalidOpcode(_) => "InvalidOpcode",
+                        E::NegativeInt { .. } => "NegativeInt",
+                        E::NonMinimalVerify(_) => "NonMinimalVerify",
+                        E::Script(_) => "Script",
+                    };
+                    json!({"st": "err", "toks": [], "err": kind})
+                }
+                Err(_) => json!({"st": "panic", "toks": [], "err": "PANIC"}),
+            };
             guard("decode<Segwitv0>", || Miniscript::<bitcoin::PublicKey, miniscript::Segwitv0>::decode_consensus(&script).is_ok(), &mut panics, &mut slow, &mut acc);
             guard("decode<Tap>", || Miniscript::<bitcoin::XOnlyPublicKey, miniscript::Tap>::decode_consensus(&script).is_ok(), &mut panics, &mut slow, &mut acc);
             guard("decode<Legacy>", || Miniscript::<bitcoin::PublicKey, miniscript::Legacy>::decode_consensus(&script).is_ok(), &mut panics, &mut slow, &mut acc);
